@@ -257,8 +257,11 @@ pub fn execute_range(prop: &dyn Prop, cfg: &RunCfg, known: &[Known]) -> Summary 
             }));
         }
         for h in handles {
-            if h.join().is_err() {
-                harness_errors.lock().unwrap().push("a worker thread panicked outside catch_unwind (harness bug or panic in an unguarded library call)".to_string());
+            if let Err(p) = h.join() {
+                harness_errors.lock().unwrap().push(format!(
+                    "a worker thread panicked outside catch_unwind (harness bug or panic in an unguarded library call): {}",
+                    crate::obs::panic_msg(p)
+                ));
             }
         }
         finished.store(true, Ordering::Relaxed);
@@ -445,6 +448,21 @@ pub fn fmap(m: &BTreeMap<&'static str, u64>) -> J {
     J::Obj(o)
 }
 
+/// families added to a property's runs after its rule text was written (DESIGN.md deviations 20-27)
+fn rule_additions(pid: &str) -> &'static str {
+    match pid {
+        "C01" => "; ADDED: owner actions between reads vary per schedule (write pending output, pop late, pop one request per read, answer with short writes, lose the output side through clear_write_buffer() or a refused write); one stream in 150 is a marathon of 40..400 pipelined requests",
+        "C02" | "C11" | "C12" | "C13" => "; ADDED: one stream in 150 is a marathon of 40..400 pipelined requests",
+        "C03" => "; ADDED: clear_write_buffer() and set_payload_max_size() among the operations",
+        "C04" => "; ADDED: in a quarter of the connection-level runs the owner calls set_payload_max_size() at 1..2 arbitrary stream offsets (every schedule is cut there); the model applies the limit in force when the header block completes; limits up to usize::MAX",
+        "C05" => "; ADDED: builder programs include set_content_length(None|0|n|negative|MIN|MAX) (byte equality always; reader and presence rule only where the explicit value agrees with the body), Server strings up to 5000 bytes, Allow lists up to 80 entries",
+        "C06" => "; ADDED: a third of the runs interleave try_read calls (EOF, EAGAIN, EINTR, ECONNRESET, data that queues no output) - a read must leave the output side alone; explicit lengths and long heads as in C05",
+        "C07" | "C10" | "C18" => "; ADDED: set-up variants (kill switch before/after start_server, created before the server, listener handed over with new_from_fd, daemon-style descriptor numbers from 0), marathon clients (20..60 pipelined requests, 300..900 steps), churn (up to 60 short-lived clients), a fork step (child inherits the open descriptors), application responses with status 204 and a body",
+        "C08" | "C09" => "; ADDED: set-up variants (kill switch before/after start_server, created before the server, listener handed over with new_from_fd, daemon-style descriptor numbers from 0), marathon clients, churn, a fork step (C09), 204 responses with a body, and one run in 6000 from the lean flood engine: one client pipelines 250..70000 minimal requests while the application answers in bursts or only at the end (respond or one enqueue_responses batch); oracles there: requests()/respond() never fail, every request yielded once in order, exact output stream, no lost wake-up, quiescence",
+        _ => "",
+    }
+}
+
 /// Run a property check end to end; returns the process exit code.
 pub fn run_check(prop: &dyn Prop, cfg: &RunCfg) -> i32 {
     let known = match load_known(&cfg.verif_dir) {
@@ -545,7 +563,7 @@ pub fn run_check(prop: &dyn Prop, cfg: &RunCfg) -> i32 {
             ("evaluations", J::Int(sum.evaluations as i128)),
             ("distinct_nontrivial", J::Int(sum.distinct_nontrivial as i128)),
             ("nontrivial_runs", J::Int(sum.nontrivial as i128)),
-            ("rule", json::s(prop.rule())),
+            ("rule", json::s(&format!("{}{}", prop.rule(), rule_additions(pid)))),
             ("samples", J::Arr(if sum.samples.is_empty() { vec![json::s("(no non-trivial run among the first 256)")] } else { sum.samples.clone() })),
             ("runs_per_hour", J::Float(runs_per_hour.round())),
             ("simulated_time_logical_steps", J::Int(sum.stats.steps as i128)),
